@@ -28,6 +28,7 @@ def check(repo, run, tier):
     g(_as, run, 'C07.R4', 'C10.R5', lambda: c07.r4(repo, run))
     g(_as, run, 'C19.R5', 'C10.R6', lambda: c19.r5(repo, run))
     g(unitrules.partial_child_getitem, repo, run, 'C10.R7')
+    g(unitrules.map_nodes_memo, repo, run, 'C10.R8')
     g.done()
 
 
@@ -51,6 +52,8 @@ def _as(run, old, new, fn):
 
 def mutants(repo):
     return [
+        Mutant('map-memo-keyed-by-the-result', lambda r: in_func(r, 'ComposedNode.ayns.map_nodes', "cache[persistent_id(child)] = possibly_new_child", "cache[persistent_id(possibly_new_child)] = possibly_new_child"), ['C10.R8']),
+        Mutant('nested-holder-carries-parent-path', lambda r: in_func(r, 'EvalContext.PartialChild.get_or_set', "EvalContext.PartialChild(self._path + [key],", "EvalContext.PartialChild(self._path,"), ['C10.R7']),
         Mutant('lazy-entry-path', lambda r: in_func(r, 'EvalContext.PartialChild.__getitem__', "self._eval_ctx.evaluate_node(node, self._path + [key])", "self._eval_ctx.evaluate_node(node, self._path)"), ['C10.R7']),
         Mutant('memo-get-none-is-miss', lambda r: in_func(r, 'EvalContext.evaluate_node',
                "        if id(cfgobj) in self._eval_cache_id:\n            return self._eval_cache_id[id(cfgobj)]", "        cached = self._eval_cache_id.get(id(cfgobj))\n        if cached is not None:\n            return cached"), ['C10.R1']),
